@@ -15,6 +15,12 @@ from models import cfgs_tla
 PROP = "C02"
 
 
+def more(rng):
+    """Further put requests on the same handlers (each with its own mode / closure, after a pause)."""
+    return [dict(putMode=rng.choice(["none", "ACK", "UNACK"]), putClosure=rng.choice(["none", "true", "false"]),
+                 gap=rng.choice([0, 700, 5000])) for _ in range(rng.choice([0, 0, 1, 1, 2]))]
+
+
 def product(rng, n: int | None):
     out = []
     for mode, closure, chk, crc, w, dw, qw, imm, segsel, pktsel, shape in itertools.product(
@@ -45,12 +51,13 @@ def product(rng, n: int | None):
                          seq0=rng.choice([0, 7, 255 if qw == 1 else 4000]), immNak=imm, segLen=seg_cfg, maxPkt=max_pkt,
                          file=[rng.randrange(256) for _ in range(size)], dstShape=shape,
                          dstOld=[rng.randrange(256) for _ in range(rng.choice([0, 3, 40]))] if "existing" in shape else [],
-                         putMode=rng.choice(["none", "none", "ACK", "UNACK"]), putClosure=rng.choice(["none", "none", "true", "false"])))
+                         putMode=rng.choice(["none", "none", "ACK", "UNACK"]), putClosure=rng.choice(["none", "none", "true", "false"]),
+                         more=more(rng)))
     n_md = 8 if n is not None else 32
     for _ in range(n_md):
         cfgs.append(dict(mode=rng.choice(["ACK", "UNACK"]), closure=rng.choice([True, False]), mdOnly=True, file=[],
                          crc=rng.choice([True, False]), sIdW=rng.choice([1, 2, 4]), seqW=rng.choice([1, 2, 4]),
-                         msgs=rng.choice([[], [[1, 2, 3]], [[99, 102, 100, 112, 0, 1], [7]]])))
+                         msgs=rng.choice([[], [[1, 2, 3]], [[99, 102, 100, 112, 0, 1], [7]]]), more=more(rng)))
     return cfgs
 
 
@@ -64,11 +71,11 @@ def run(tier: str, keep: bool = False) -> int:
     for i in range(0, len(cfgs), chunk):
         fam = cfgs_tla(cfgs[i:i + chunk])
         r.model(f"nominal{i}", fam, K=0, invariants=inv, properties=["Completes"], fair=True, timeout=1500)
-        r.schedules(f"canon{i}", fam, props, K=0)
+        r.schedules(f"canon{i}", fam, props, K=0, maxhist=400)
     fam = cfgs_tla(cfgs[:60 if r.quick else 400])
     r.model("freepacing", fam, K=0, pacing="free", invariants=inv, timeout=1500)
-    r.schedules("simfree", fam, props, K=0, pacing="free", simulate=dict(num=240 if r.quick else 4000, depth=120),
-                maxhist=120, workers=4)
+    r.schedules("simfree", fam, props, K=0, pacing="free", simulate=dict(num=240 if r.quick else 4000, depth=200),
+                maxhist=200, workers=4)
     r.judge()
     return r.finish(assumptions=["fault-free link: every PDU delivered once, in order; time passes only while no PDU is in flight",
                                  "quick samples the configuration product by VERIF_SEED; thorough samples 6000 of its 147456 points "
